@@ -130,6 +130,15 @@ Theorem swarm_close_waits_for_admitted_conns : forall cap xs ss c,
 Proof. exact swarm_close_delivers. Qed.
 Print Assumptions swarm_close_waits_for_admitted_conns.
 
+(* the same for EVERY Swarm.Close call (closeOnce: a further, overlapping call waits for the shutdown): once any
+   Swarm.Close call has returned, every admitted conn has had each callback exactly once *)
+Theorem every_swarm_close_call_waits_for_admitted_conns : forall cap xs ss c,
+  srun cap sinit xs = Some ss -> In VCloseRet (vobs xs) \/ In VClose2Ret (vobs xs) -> c < nconns (base ss) ->
+  vcnt (VConnB c) (vobs xs) = 1 /\ vcnt (VConnE c) (vobs xs) = 1 /\
+  vcnt (VDiscB c) (vobs xs) = 1 /\ vcnt (VDiscE c) (vobs xs) = 1.
+Proof. exact any_close_return_delivers. Qed.
+Print Assumptions every_swarm_close_call_waits_for_admitted_conns.
+
 (* ... where a conn that was seen listed in Conns(), or announced, is an admitted one *)
 Theorem listed_conn_is_admitted : forall cap xs ss c, srun cap sinit xs = Some ss ->
   In (VSeen c) (vobs xs) \/ In (VConnB c) (vobs xs) -> c < nconns (base ss).
@@ -227,6 +236,14 @@ Example swarm_close_blocks_on_window :
                  XS (SDBegin 0); XS (SDSkip 0); XS (STCloseB 0); XS (STCloseE 0); XS (SDSpawn 0); XB (RemCall 0); XB (RChk 0);
                  XB (REnq 0); XB (RLock 0); XB (RFin 0); XB (RemRet 0); XS (SGDone 0); XS SWaited] = None.
 Proof. vm_compute. reflexivity. Qed.
+(* a second Swarm.Close call cannot return while the first is still shutting down *)
+Example second_close_waits :
+  srun 32 sinit [XS (SAddCall 0 7 false false); XB (Reg 0 7 false); XS SCloseCall; XS SClose2Call; XS SClose2Ret] = None.
+Proof. vm_compute. reflexivity. Qed.
+Example swmonitor_rejects_early_second_close :
+  vholds_from (rev [VAddCall 0 7 false false; VConnB 0; VConnE 0; VAddRet 0 true; VCloseCall; VTCloseB 0; VTCloseE 0; VDiscB 0;
+                    VClose2Call; VClose2Ret]) <> [].
+Proof. vm_compute. discriminate. Qed.
 (* the swarm-level monitor rejects: Swarm.Close returning before a listed conn was announced; Disconnected while the
    transport conn is still open; a relayed-unlimited conn published as Limited; a peer left Connected after Close *)
 Example swmonitor_rejects_early_swarm_close :
